@@ -276,6 +276,7 @@ def validateMember (input : DataType) (isEnum : Bool) (typePaths : List TypePath
       -- the payload fields of the variant
       v.fields.foldl (fun es f =>
         let es := barkAtMemberAttr f.attrs.childAttrs.length "child" es
+        let es := validateParentAttrs v.namedFields f.attrs.parentAttrs byKind es
         let es := parentTypePass f byKind es
         let es := validateDedicatedMemberAttrs (f.attrs.attrs.map (·.attr.containerTy)) none typePaths es
         let es := validateDedicatedMemberAttrs (f.attrs.ghostAttrs.map (·.attr.containerTy)) none typePaths es
